@@ -258,6 +258,48 @@ def _shard_worker(args):
         return ('harness', '%s: %s\n%s' % (type(err).__name__, err, traceback.format_exc(limit=12)))
 
 
+def _shard_child(conn, job):
+    try:
+        conn.send(_shard_worker(job))
+    finally:
+        conn.close()
+
+
+def _run_shards(jobs, nproc, stats):
+    ''' One process per shard, at most ``nproc`` at a time.  A shard process that dies without handing back a result
+    (killed from outside, out of memory) is started again; a shard that dies three times is a harness error.  Nothing
+    here can wait for ever on a dead worker (multiprocessing.Pool.map does). '''
+    import multiprocessing.connection
+    ctx = multiprocessing.get_context('fork')
+    results = {}
+    attempts = dict((idx, 0) for idx in range(len(jobs)))
+    todo = list(range(len(jobs)))
+    running = {}     # connection -> (index, process)
+    while todo or running:
+        while todo and len(running) < nproc:
+            idx = todo.pop(0)
+            attempts[idx] += 1
+            parent_conn, child_conn = ctx.Pipe(duplex=False)
+            proc = ctx.Process(target=_shard_child, args=(child_conn, jobs[idx]))
+            proc.start()
+            child_conn.close()
+            running[parent_conn] = (idx, proc)
+        for conn in multiprocessing.connection.wait(list(running), timeout=5.0):
+            idx, proc = running.pop(conn)
+            try:
+                results[idx] = conn.recv()
+            except (EOFError, OSError):
+                proc.join(10)
+                if attempts[idx] >= 3:
+                    raise HarnessError('shard %d died %d times without a result (exit code %s)' % (idx, attempts[idx], proc.exitcode))
+                stats.notes.append('shard %d died without a result (exit code %s); started again' % (idx, proc.exitcode))
+                todo.append(idx)
+            finally:
+                conn.close()
+            proc.join(30)
+    return [results[idx] for idx in range(len(jobs))]
+
+
 def explore(check, tier, seed_value):
     ''' Run pinned cases, the exhaustive enumeration and the random shards. '''
     budget = check.budgets(tier)
@@ -272,9 +314,7 @@ def explore(check, tier, seed_value):
     if shards == 1:
         results = [_shard_worker(jobs[0])]
     else:
-        ctx = multiprocessing.get_context('fork')
-        with ctx.Pool(min(shards, os.cpu_count() or 1)) as pool:
-            results = pool.map(_shard_worker, jobs, chunksize=1)
+        results = _run_shards(jobs, min(shards, os.cpu_count() or 1), stats)
     for status, payload in results:
         if status != 'ok':
             raise HarnessError(payload)
